@@ -33,6 +33,7 @@ CODES = {1: "result class differs", 2: "errors differ", 3: "retired states diffe
          20: "a thread executed an instruction more often than the iteration limit",
          21: "a jump destination was forked to more often than the fork limit",
          22: "more threads than 1 + fork_limit * #JUMPDEST", 23: "a thread continued after exceeding the gas limit",
+         26: "a retired thread's gas account is below the minimum gas of its own path from the start (gas lost at a fork?)",
          24: "execution did not halt within the poll budget", 25: "threads left in the queue after a normal return",
          26: "panic"}
 
@@ -65,6 +66,22 @@ def inputs(ctx):
     # lifting passes (which_power_of_2, get_region), which the watchdog does not reach
     for code in gen.mask_shift_programs(rng, bw, 150 if ctx.quick else 3000):
         add(code, (30000000, 10, 50, 250, 394, 0), "lifting-arithmetic")
+    # gas accounting across forks: a cheap straight prefix that uses most of a small gas budget, a JUMPI, and more work on
+    # both sides (the account of the forked thread must be the gas of its whole path)
+    for _ in range(60 if ctx.quick else 1000):
+        a = gen.Asm()
+        pre, post = rng.randrange(10, 80), rng.randrange(5, 40)
+        for _ in range(pre):
+            a.push(0).op("POP")
+        a.op("CALLVALUE").push_label("F").op("JUMPI")
+        for _ in range(rng.randrange(0, 10)):
+            a.push(0).op("POP")
+        a.op("STOP").label("F")
+        for _ in range(post):
+            a.push(0).op("POP")
+        a.push(1).push(7).op("SSTORE").op("STOP")
+        glim = rng.choice([5 * pre + 20, 5 * (pre + post) - 10, 5 * (pre + post) + 200, 30000000])
+        add(a.assemble(), (glim, 10, 50, 250, 394, rng.randrange(2)), "gas-across-forks")
     for code in gen.cyclic_evidence_programs(rng, 80 if ctx.quick else 1500):
         add(code, (30000000, 10, 50, 250, 394, 0), "cyclic-evidence")
     return progs
@@ -72,7 +89,7 @@ def inputs(ctx):
 
 def check(ctx):
     vlib.translate(ctx)
-    vlib.prove(ctx, "props/C03.v", ["VmCases.vo", "UnifyCases.vo"])
+    vlib.prove(ctx, "props/C03.v", ["VmCases.vo", "UnifyCases.vo", "SimCases.vo"])
     vlib.prove(ctx, "props/C03_pipeline.v")   # the composed model: no out-of-fuel result under C03's fuel record
     hb = vlib.harness_bin(ctx)
     progs = inputs(ctx)
@@ -87,9 +104,9 @@ def check(ctx):
         outcome = collections.Counter(l.split(" ")[0] for l in out)
         terms = ["mk_vcase %s %s (%s)" % (vlib.coq_bytes(c), gen.coq_config(cfg), l) for (c, cfg), l in zip(keys, out)
                  if l != "CHILD-DIED"]
-        header = ("From Coq Require Import String.\nFrom SLX Require Import Base gen.ValueSig SymVal VM VmCases.\n"
+        header = ("From Coq Require Import String.\nFrom SLX Require Import Base gen.ValueSig SymVal VM VmCases SimCases.\n"
                   "Open Scope string_scope. Open Scope N_scope.\n")
-        bad = vlib.run_cases(ctx, "vm-bounds", header, terms, per_shard=min(120, max(1, len(terms) // 32 + 1)), fn="check_c03")
+        bad = vlib.run_cases(ctx, "vm-bounds", header, terms, per_shard=min(120, max(1, len(terms) // 32 + 1)), fn="check_c03g")
         disagreements = []
         for idx, code in bad:
             c, cfg = keys[idx]
